@@ -68,3 +68,247 @@ Proof.
   replace (0 * (b - a) + a) with a by ring. replace (1 * (b - a) + a) with b by ring.
   destruct (Rle_dec a b); [left|right]; split; apply cube_mono; nra.
 Qed.
+
+(* ====================================================================================
+   Deepening round: the other transcendental shapes of Env._env_at over the reals, written
+   from the code with the REGENERATED kernels where the code calls them
+   (bi.pow -> pyR_pow, bi.exp -> pyR_exp: Gen_builtinsR.v; bi.sqrt -> pyR_sqrt and the two
+   float literals: Gen_envR.v). *)
+From Coq Require Import R_sqrt Ranalysis MVT.
+Require Import SC3.gen.Gen_envR.
+
+Definition betweenR (a b v : R) : Prop := (a <= v <= b) \/ (b <= v <= a).
+
+Lemma exp_mono_le x y : x <= y -> exp x <= exp y.
+Proof. intros [H|H]; [left; apply exp_increasing; exact H|subst; right; reflexivity]. Qed.
+Lemma exp_ge_1_plus x : 1 + x <= exp x.
+Proof. destruct (Req_dec x 0) as [->|H]; [rewrite exp_0; lra|left; apply exp_ineq1; exact H]. Qed.
+
+(* ---------------------------------------------------------------- exponential
+   if start_level == 0.0: return 0.0
+   return start_level * bi.pow(target_level / start_level, pos)
+   Domain (documented): levels non-zero and of one sign, i.e. 0 < s * t. *)
+Definition expR (s t pos : R) : R :=
+  if Req_EM_T s 0 then 0 else s * pyR_pow (t / s) pos.
+
+Lemma ratio_pos s t : 0 < s * t -> s <> 0 /\ 0 < t / s.
+Proof.
+  intros H. assert (Hs : s <> 0) by (intros ->; lra). split; [exact Hs|].
+  assert (0 < / s * / s) by (assert (/ s <> 0) by (apply Rinv_neq_0_compat; exact Hs); nra).
+  replace (t / s) with ((s * t) * (/ s * / s)) by (field; exact Hs). nra.
+Qed.
+
+Lemma Rpower_between r pos : 0 < r -> 0 <= pos <= 1 -> betweenR 1 r (Rpower r pos).
+Proof.
+  intros Hr [H0 H1]. unfold Rpower.
+  destruct (Rle_dec 0 (ln r)) as [Hl|Hl].
+  - left. split.
+    + rewrite <- exp_0. apply exp_mono_le. nra.
+    + rewrite <- (exp_ln r Hr) at 2. apply exp_mono_le. nra.
+  - right. split.
+    + rewrite <- (exp_ln r Hr) at 1. apply exp_mono_le. nra.
+    + rewrite <- exp_0. apply exp_mono_le. nra.
+Qed.
+
+Lemma exp_segment s t : 0 < s * t ->
+  expR s t 0 = s /\ expR s t 1 = t /\ (forall pos, 0 <= pos <= 1 -> betweenR s t (expR s t pos)).
+Proof.
+  intros H. destruct (ratio_pos s t H) as [Hs Hr]. unfold expR.
+  destruct (Req_EM_T s 0) as [E|_]; [contradiction|].
+  assert (Hp : forall pos, pyR_pow (t / s) pos = Rpower (t / s) pos).
+  { intros pos. rewrite pow_is_sign_symmetric. unfold spow. destruct (Rle_dec 0 (t / s)); [reflexivity|lra]. }
+  split; [rewrite Hp, Rpower_O by exact Hr; ring|].
+  split; [rewrite Hp, Rpower_1 by exact Hr; field; exact Hs|].
+  intros pos Hpos. rewrite Hp.
+  pose proof (Rpower_between (t / s) pos Hr Hpos) as Hb.
+  set (q := Rpower (t / s) pos) in *. clearbody q.
+  assert (Ht : t = s * (t / s)) by (field; exact Hs).
+  set (r := t / s) in *. clearbody r. subst t. unfold betweenR in *.
+  destruct (Rle_dec 0 s); destruct Hb as [[? ?]|[? ?]]; [left|right|right|left]; split; nra.
+Qed.
+
+(* ---------------------------------------------------------------- numeric curvature
+   if math.fabs(curve) < 0.0001: return pos * (target_level - start_level) + start_level
+   fac = (1.0 - bi.exp(pos * curve)) / (1.0 - bi.exp(curve))
+   return start_level + (target_level - start_level) * fac
+   Domain: every curve value and all levels. *)
+Definition curveR (c s t pos : R) : R :=
+  if Rlt_dec (Rabs c) env_curve_epsR then pos * (t - s) + s
+  else s + (t - s) * ((1 - pyR_exp (pos * c)) / (1 - pyR_exp c)).
+
+Lemma curve_eps_pos : 0 < env_curve_epsR.
+Proof. unfold env_curve_epsR. apply Rdiv_lt_0_compat; apply IZR_lt; reflexivity. Qed.
+
+Lemma frac01 u v : 0 <= u <= v -> 0 < v -> 0 <= u / v <= 1.
+Proof.
+  intros [H0 H1] Hv. assert (Hi : 0 < / v) by (apply Rinv_0_lt_compat; exact Hv).
+  assert (Hone : v * / v = 1) by (field; lra). unfold Rdiv. split; nra.
+Qed.
+
+Lemma curve_fac c pos : c <> 0 -> 0 <= pos <= 1 ->
+  0 <= (1 - exp (pos * c)) / (1 - exp c) <= 1.
+Proof.
+  intros Hc [H0 H1]. destruct (Rlt_dec 0 c) as [Hp|Hn].
+  - assert (He : 1 < exp c) by (rewrite <- exp_0; apply exp_increasing; exact Hp).
+    assert (H2 : 1 <= exp (pos * c)) by (rewrite <- exp_0; apply exp_mono_le; nra).
+    assert (H3 : exp (pos * c) <= exp c) by (apply exp_mono_le; nra).
+    replace ((1 - exp (pos * c)) / (1 - exp c)) with ((exp (pos * c) - 1) / (exp c - 1)) by (field; lra).
+    apply frac01; lra.
+  - assert (Hc' : c < 0) by lra.
+    assert (He : exp c < 1) by (rewrite <- exp_0; apply exp_increasing; exact Hc').
+    assert (H2 : exp (pos * c) <= 1) by (rewrite <- exp_0; apply exp_mono_le; nra).
+    assert (H3 : exp c <= exp (pos * c)) by (apply exp_mono_le; nra).
+    apply frac01; lra.
+Qed.
+
+Lemma lin_betweenR s t pos : 0 <= pos <= 1 -> betweenR s t (pos * (t - s) + s).
+Proof. intros [? ?]. unfold betweenR. destruct (Rle_dec s t); [left|right]; split; nra. Qed.
+Lemma phi_betweenR s t f : 0 <= f <= 1 -> betweenR s t (s + (t - s) * f).
+Proof. intros [? ?]. unfold betweenR. destruct (Rle_dec s t); [left|right]; split; nra. Qed.
+
+Lemma curve_segment c s t :
+  curveR c s t 0 = s /\ curveR c s t 1 = t /\ (forall pos, 0 <= pos <= 1 -> betweenR s t (curveR c s t pos)).
+Proof.
+  unfold curveR, pyR_exp. destruct (Rlt_dec (Rabs c) env_curve_epsR) as [Hl|Hl].
+  - split; [ring|]. split; [ring|]. intros pos Hp. apply lin_betweenR. exact Hp.
+  - assert (Hc : c <> 0).
+    { intros ->. apply Hl. rewrite Rabs_R0. apply curve_eps_pos. }
+    assert (Hd : 1 - exp c <> 0).
+    { destruct (Rlt_dec 0 c).
+      - assert (1 < exp c) by (rewrite <- exp_0; apply exp_increasing; lra). lra.
+      - assert (exp c < 1) by (rewrite <- exp_0; apply exp_increasing; lra). lra. }
+    split; [rewrite Rmult_0_l, exp_0; field; exact Hd|].
+    split; [rewrite Rmult_1_l; field; exact Hd|].
+    intros pos Hp. apply phi_betweenR, curve_fac; assumption.
+Qed.
+
+(* ---------------------------------------------------------------- squared
+   sqrt_sl = bi.sqrt(start_level); sqrt_tl = bi.sqrt(target_level)
+   sqrt_level = pos * (sqrt_tl - sqrt_sl) + sqrt_sl
+   return sqrt_level * abs(sqrt_level)        (repaired; the snapshot returned sqrt_level * sqrt_level)
+   bi.sqrt is sign-symmetric (x < 0 -> -sqrt(-x)); with the sign-keeping square the law holds for
+   ALL levels; the snapshot's plain square agrees with it exactly when the levels are non-negative. *)
+Definition sqrR (s t pos : R) : R :=
+  let a := pyR_sqrt s in let b := pyR_sqrt t in let l := pos * (b - a) + a in l * Rabs l.
+Definition sqrR_plain (s t pos : R) : R :=
+  let a := pyR_sqrt s in let b := pyR_sqrt t in let l := pos * (b - a) + a in l * l.
+
+Definition ssq (l : R) : R := l * Rabs l.
+Lemma ssq_sqrt s : ssq (pyR_sqrt s) = s.
+Proof.
+  unfold ssq, pyR_sqrt. destruct (Rlt_dec s (IZR 0)) as [H|H].
+  - rewrite Rabs_Ropp, (Rabs_pos_eq _ (sqrt_pos _)).
+    replace (- sqrt (- s) * sqrt (- s)) with (- (sqrt (- s) * sqrt (- s))) by ring.
+    rewrite sqrt_sqrt by lra. ring.
+  - rewrite (Rabs_pos_eq _ (sqrt_pos _)). apply sqrt_sqrt. lra.
+Qed.
+Lemma ssq_mono a b : a <= b -> ssq a <= ssq b.
+Proof.
+  intros H. unfold ssq. destruct (Rle_dec 0 a), (Rle_dec 0 b).
+  - rewrite !Rabs_pos_eq by assumption. nra.
+  - lra.
+  - rewrite (Rabs_pos_eq b) by assumption. rewrite (Rabs_left a) by lra. nra.
+  - rewrite !Rabs_left by lra. nra.
+Qed.
+
+Lemma ssq_between a b pos : 0 <= pos <= 1 -> betweenR (ssq a) (ssq b) (ssq (pos * (b - a) + a)).
+Proof.
+  intros [H0 H1]. unfold betweenR. destruct (Rle_dec a b); [left|right]; split; apply ssq_mono; nra.
+Qed.
+
+Lemma sqr_segment s t :
+  sqrR s t 0 = s /\ sqrR s t 1 = t /\ (forall pos, 0 <= pos <= 1 -> betweenR s t (sqrR s t pos)).
+Proof.
+  unfold sqrR. cbv zeta. fold (ssq (0 * (pyR_sqrt t - pyR_sqrt s) + pyR_sqrt s)).
+  fold (ssq (1 * (pyR_sqrt t - pyR_sqrt s) + pyR_sqrt s)).
+  replace (0 * (pyR_sqrt t - pyR_sqrt s) + pyR_sqrt s) with (pyR_sqrt s) by ring.
+  replace (1 * (pyR_sqrt t - pyR_sqrt s) + pyR_sqrt s) with (pyR_sqrt t) by ring.
+  split; [apply ssq_sqrt|]. split; [apply ssq_sqrt|].
+  intros pos Hp. fold (ssq (pos * (pyR_sqrt t - pyR_sqrt s) + pyR_sqrt s)).
+  pose proof (ssq_between (pyR_sqrt s) (pyR_sqrt t) pos Hp) as Hb.
+  rewrite !ssq_sqrt in Hb. exact Hb.
+Qed.
+
+Lemma sqr_plain_nonneg s t pos : 0 <= s -> 0 <= t -> 0 <= pos <= 1 -> sqrR_plain s t pos = sqrR s t pos.
+Proof.
+  intros Hs Ht [H0 H1]. unfold sqrR_plain, sqrR, pyR_sqrt. cbv zeta.
+  destruct (Rlt_dec s (IZR 0)); [lra|]. destruct (Rlt_dec t (IZR 0)); [lra|].
+  pose proof (sqrt_pos s). pose proof (sqrt_pos t).
+  rewrite Rabs_pos_eq by nra. reflexivity.
+Qed.
+(* and it cannot hold for a negative start level: the plain square is never negative *)
+Lemma sqr_plain_negative_start s t : s < 0 -> sqrR_plain s t 0 <> s.
+Proof.
+  intros Hs. unfold sqrR_plain. cbv zeta.
+  replace (0 * (pyR_sqrt t - pyR_sqrt s) + pyR_sqrt s) with (pyR_sqrt s) by ring.
+  intros E. assert (0 <= pyR_sqrt s * pyR_sqrt s) by nra. lra.
+Qed.
+
+(* ---------------------------------------------------------------- cubed, the source's exponent
+   value at the start: s * |s| ^ (3c - 1); it is the level itself iff 3c = 1 or |s| = 1. *)
+Lemma cub_start_closed_form c s t : s <> 0 ->
+  cubR c s t 0 = s * Rpower (Rabs s) (3 * c - 1).
+Proof.
+  intros Hs. unfold cubR. cbv zeta. rewrite !pow_is_sign_symmetric.
+  replace (0 * (spow t c - spow s c) + spow s c) with (spow s c) by ring.
+  assert (Hcube : forall u, 0 < u -> Rpower u c * Rpower u c * Rpower u c = u * Rpower u (3 * c - 1)).
+  { intros u Hu. transitivity (Rpower u (c + c + c)); [rewrite !Rpower_plus; reflexivity|].
+    transitivity (Rpower u (1 + (3 * c - 1))); [f_equal; ring|].
+    rewrite Rpower_plus, Rpower_1 by exact Hu. reflexivity. }
+  unfold spow. destruct (Rle_dec 0 s).
+  - rewrite Rabs_pos_eq by assumption. apply Hcube. lra.
+  - rewrite Rabs_left by lra.
+    replace (- Rpower (- s) c * - Rpower (- s) c * - Rpower (- s) c)
+      with (- (Rpower (- s) c * Rpower (- s) c * Rpower (- s) c)) by ring.
+    rewrite Hcube by lra. ring.
+Qed.
+
+Lemma exp_minus_1_bound x : Rabs x < 1 -> Rabs (exp x - 1) <= Rabs x / (1 - Rabs x).
+Proof.
+  intros Hx. pose proof (exp_ge_1_plus x) as H1. pose proof (exp_ge_1_plus (- x)) as H2.
+  pose proof (exp_pos x) as Hp. rewrite exp_Ropp in H2.
+  destruct (Rle_dec 0 x) as [Hx0|Hx0].
+  - rewrite (Rabs_pos_eq x) in * by assumption. rewrite Rabs_pos_eq by lra.
+    assert (Hi : exp x <= / (1 - x)).
+    { rewrite <- (Rinv_inv (exp x)). apply Rinv_le_contravar; lra. }
+    replace (x / (1 - x)) with (/ (1 - x) - 1) by (field; lra). lra.
+  - assert (exp x <= 1) by (rewrite <- exp_0; apply exp_mono_le; lra).
+    rewrite (Rabs_left x) in * by lra. rewrite Rabs_left1 by lra.
+    assert (0 < / (1 - - x)) by (apply Rinv_0_lt_compat; lra).
+    assert (- x <= - x / (1 - - x)).
+    { unfold Rdiv. replace (- x) with (- x * 1) at 1 by ring. apply Rmult_le_compat_l; [lra|].
+      rewrite <- Rinv_1 at 1. apply Rinv_le_contravar; lra. }
+    lra.
+Qed.
+
+(* how far the start of a cubed segment is from its level, for any exponent *)
+Lemma cub_start_error c s t : s <> 0 ->
+  let x := (3 * c - 1) * ln (Rabs s) in
+  Rabs x < 1 -> Rabs (cubR c s t 0 - s) <= Rabs s * (Rabs x / (1 - Rabs x)).
+Proof.
+  intros Hs x Hx. rewrite cub_start_closed_form by exact Hs.
+  replace (s * Rpower (Rabs s) (3 * c - 1) - s) with (s * (exp x - 1)) by (unfold Rpower, x; ring).
+  rewrite Rabs_mult. apply Rmult_le_compat_l; [apply Rabs_pos|]. apply exp_minus_1_bound. exact Hx.
+Qed.
+
+Lemma cub_exponent_close : Rabs (3 * env_cub_exponentR - 1) <= 2 / 10000000.
+Proof. unfold env_cub_exponentR. apply Rabs_le. split; lra. Qed.
+
+(* the source's exponent 0.3333333: relative error at most 2.5e-7 * |ln |s||  (for |ln |s|| <= 1000) *)
+Lemma cub_start_source_exponent s t : s <> 0 -> Rabs (ln (Rabs s)) <= 1000 ->
+  Rabs (cubR env_cub_exponentR s t 0 - s) <= Rabs s * (Rabs (ln (Rabs s)) / 4000000).
+Proof.
+  intros Hs HL. pose proof cub_exponent_close as Hd.
+  set (d := 3 * env_cub_exponentR - 1) in *. set (L := ln (Rabs s)) in *.
+  assert (Hx : Rabs (d * L) <= 2 / 10000000 * Rabs L).
+  { rewrite Rabs_mult. apply Rmult_le_compat_r; [apply Rabs_pos|exact Hd]. }
+  pose proof (Rabs_pos L) as HL0.
+  assert (Hx1 : Rabs (d * L) < 1) by lra.
+  eapply Rle_trans; [apply (cub_start_error env_cub_exponentR s t Hs); exact Hx1|].
+  apply Rmult_le_compat_l; [apply Rabs_pos|]. fold d L.
+  set (x := Rabs (d * L)) in *. pose proof (Rabs_pos (d * L)) as Hx0. fold x in Hx0.
+  assert (Hi : / (1 - x) <= 10000 / 9998).
+  { rewrite <- (Rinv_inv (10000 / 9998)). apply Rinv_le_contravar; [lra|].
+    replace (/ (10000 / 9998)) with (9998 / 10000) by field. lra. }
+  unfold Rdiv at 1. assert (0 < / (1 - x)) by (apply Rinv_0_lt_compat; lra). nra.
+Qed.
